@@ -144,7 +144,7 @@ func (server *SugarDB) VerifDump() VerifState {
 
 // VerifFlags reports the two busy-wait flags and the two in-progress flags.
 func (server *SugarDB) VerifFlags() (copying, mutating, snapshotting, rewriting bool) {
-	return server.stateCopyInProgress.Load(), server.stateMutationInProgress.Load(),
+	return server.stateCopyInProgress.Load(), server.stateMutations.Load() != 0,
 		server.snapshotInProgress.Load(), server.rewriteAOFInProgress.Load()
 }
 
